@@ -12,6 +12,7 @@ def prebuild():
 
 
 def run(tier, seed, res):
+    engine.known_findings(PROP, res, ["C01", "C02"])
     engine.regressions(PROP, res, ["C01", "C02"])
     engine.run(PROP, "c02", tier, seed, res, props=["C02", "C01"])
 
